@@ -87,6 +87,8 @@ def scoreWu (A : AMat Rat n) (s : Rat) : Out Rat n :=
         CIJkcore, kn[k] = kcore(CIJ, k)
         ss = np.sum(CIJkcore, axis=0) > 0
         coreness[ss] = k
+
+(`kcoreness_centrality_bu`; the directed routine scans `2N-1` values of `k` and tests in+out sums, see `corenessOfBd`)
 -/
 
 /-- `np.sum(M, axis=0)[v]` (plain column sum, no binarisation) -/
@@ -102,7 +104,25 @@ def corenessOf (kcore : Nat → Out Int n) : (Fin n → Nat) × List Nat :=
   (fun v => lastHit (fun k => if h : k < n then decide (0 < colSum (cores[k]).M v) else false) (List.range n),
    (List.finRange n).map fun k => (cores[k]).kn)
 
-def kcorenessBd (A : AMat Int n) : (Fin n → Nat) × List Nat := corenessOf (kcoreBd A)
+/-- `np.sum(M, axis=1)[v]` (plain row sum) -/
+def rowSum (M : AMat Int n) (v : Fin n) : Int :=
+  ((List.finRange n).map fun w => M.get v w).sum
+
+/-- `kcoreness_centrality_bd` (as repaired):
+
+    kn = np.zeros((max(2 * N - 1, 0),))
+    for k in range(2 * N - 1):
+        CIJkcore, kn[k] = kcore_bd(CIJ, k)
+        ss = (np.sum(CIJkcore, axis=0) + np.sum(CIJkcore, axis=1)) > 0
+        coreness[ss] = k
+-/
+def corenessOfBd (kcore : Nat → Out Int n) : (Fin n → Nat) × List Nat :=
+  let cores : Vector (Out Int n) (2 * n - 1) := Vector.ofFn fun k => kcore k.val
+  (fun v => lastHit (fun k => if h : k < 2 * n - 1 then
+      decide (0 < colSum (cores[k]).M v + rowSum (cores[k]).M v) else false) (List.range (2 * n - 1)),
+   (List.finRange (2 * n - 1)).map fun k => (cores[k]).kn)
+
+def kcorenessBd (A : AMat Int n) : (Fin n → Nat) × List Nat := corenessOfBd (kcoreBd A)
 
 /-- `CIJund = CIJ + CIJ.T; if np.any(CIJund > 1): CIJ = np.array(CIJund > 0, dtype=float)` -/
 def prepBu (A : AMat Int n) : AMat Int n :=
